@@ -26,8 +26,8 @@ def emits : Host → Bool
   | .addF _ _ _ => true
   | .addR _ _ _ => true
   | .ifc _ _ _ _ body => emits body
-  | .loop _ _ _ body => emits body
-  | .loopBody _ _ _ body => emits body
+  | .loop _ _ _ _ body => emits body
+  | .loopBody _ _ _ _ body => emits body
   | .foreach _ _ body => emits body
   | .loopUntil _ body _ _ _ => emits body
   | .tryUntil _ body => emits body
@@ -42,8 +42,8 @@ def hCount : Host → Nat
   | .addF _ _ _ => 0
   | .addR _ _ _ => 0
   | .ifc _ _ _ _ body => hCount body
-  | .loop _ _ _ body => 1 + hCount body
-  | .loopBody _ _ _ body => 1 + hCount body
+  | .loop _ _ _ _ body => 1 + hCount body
+  | .loopBody _ _ _ _ body => 1 + hCount body
   | .foreach _ _ body => 1 + hCount body
   | .loopUntil _ body _ _ cl => 1 + hCount body + (if emits body then hCount cl else 0)
   | .tryUntil _ body => hCount body
@@ -58,8 +58,8 @@ def aCount : Host → Nat
   | .addF _ _ _ => 0
   | .addR _ _ _ => 0
   | .ifc _ _ _ _ body => aCount body
-  | .loop _ _ _ body => aCount body
-  | .loopBody _ _ _ body => aCount body
+  | .loop _ _ _ _ body => aCount body
+  | .loopBody _ _ _ _ body => aCount body
   | .foreach _ _ body => aCount body
   | .loopUntil _ body _ _ cl => aCount body + (if emits body then aCount cl else 0)
   | .tryUntil _ body => aCount body
@@ -75,8 +75,8 @@ def declsOf (na : Nat) : Host → List ArrDecl
   | .addF _ _ _ => []
   | .addR _ _ _ => []
   | .ifc _ _ _ _ body => declsOf na body
-  | .loop _ _ _ body => declsOf na body
-  | .loopBody _ _ _ body => declsOf na body
+  | .loop _ _ _ _ body => declsOf na body
+  | .loopBody _ _ _ _ body => declsOf na body
   | .foreach _ _ body => declsOf na body
   | .loopUntil _ body _ _ cl =>
     declsOf na body ++ (if emits body then declsOf (na + aCount body) cl else [])
@@ -88,8 +88,8 @@ def mHandlesOf (nh : Nat) : Host → List Nat
   | .seq a b => mHandlesOf nh a ++ mHandlesOf (nh + hCount a) b
   | .qop _ t => match t with | .newReg => [nh] | _ => []
   | .ifc _ _ _ _ body => mHandlesOf nh body
-  | .loop _ _ _ body => mHandlesOf (nh + 1) body
-  | .loopBody _ _ _ body => mHandlesOf (nh + 1) body
+  | .loop _ _ _ _ body => mHandlesOf (nh + 1) body
+  | .loopBody _ _ _ _ body => mHandlesOf (nh + 1) body
   | .foreach _ _ body => mHandlesOf (nh + 1) body
   | .loopUntil _ body _ _ cl =>
     mHandlesOf (nh + 1) body ++ (if emits body then mHandlesOf (nh + 1 + hCount body) cl else [])
@@ -268,10 +268,10 @@ def hsem : Nat → Nat → Nat → Host → HSt → Option HSt
         match evalVal s b with
         | none => none
         | some vb => if condB c va vb then hsem f nh na body s else some s
-  | f + 1, nh, na, .loop start stop step body, s =>
+  | f + 1, nh, na, .loop _ start stop step body, s =>
     if !emits body then some s else
     clearOpt nh (iterLoop (hsem f (nh + 1) na body) nh stop step f (s.setH nh start))
-  | f + 1, nh, na, .loopBody start stop step body, s =>
+  | f + 1, nh, na, .loopBody _ start stop step body, s =>
     if !emits body then some s else
     clearOpt nh (iterLoop (hsem f (nh + 1) na body) nh stop step f (s.setH nh start))
   | f + 1, nh, na, .foreach arr _ body, s =>
